@@ -776,11 +776,75 @@ Proof.
   rewrite H_DE. reflexivity.
 Qed.
 
+(* a payload whose header carries ANY scrypt parameters (written by another writer of the same format): the reader
+   derives the key with the parameters the header states *)
+Lemma take_field_spec f : forall acc rest, forallb (fun b => negb (byte_eqb b colon)) f = true ->
+  take_field (f ++ colon :: rest) acc = (rev acc ++ f, Some rest).
+Proof.
+  induction f as [|b f IH]; intros acc rest H; cbn [app take_field].
+  - rewrite byte_eqb_refl, app_nil_r. reflexivity.
+  - cbn [forallb] in H. apply andb_prop in H. destruct H as [Hb Hf].
+    destruct (byte_eqb b colon); [discriminate Hb|].
+    rewrite (IH (b :: acc) rest Hf). cbn [rev]. rewrite <- app_assoc. reflexivity.
+Qed.
+
+Lemma split_field k f rest : forallb (fun b => negb (byte_eqb b colon)) f = true ->
+  split_colon (S k) (f ++ colon :: rest) = f :: split_colon k rest.
+Proof. intros H. cbn [split_colon]. rewrite (take_field_spec f [] rest H). reflexivity. Qed.
+
+Lemma digit_not_colon b : is_digit b = true -> negb (byte_eqb b colon) = true.
+Proof.
+  intros H. destruct (byte_eqb b colon) eqn:E; [|reflexivity]. exfalso.
+  apply byte_eqb_eq in E. subst b. unfold is_digit, colon in H.
+  rewrite (byte_of_N_small 58) in H by reflexivity. discriminate H.
+Qed.
+
+Lemma dec_no_colon n : forallb (fun b => negb (byte_eqb b colon)) (dec_of_N n) = true.
+Proof.
+  pose proof (dec_of_N_all_digits n) as H. induction (dec_of_N n) as [|b l IH]; [reflexivity|].
+  cbn [forallb] in *. apply andb_prop in H. destruct H as [Hb Hl]. rewrite (digit_not_colon b Hb), (IH Hl). reflexivity.
+Qed.
+
+Lemma py_int_dec n : py_int (dec_of_N n) = Some n.
+Proof. unfold py_int. rewrite dec_of_N_all_digits. apply N_of_dec_of_N. Qed.
+
+Definition foreign_payload (pw v iv : bytes) (n r p : N) : bytes :=
+  b64e P ([byte_of_N 115] ++ colon :: dec_of_N n ++ colon :: dec_of_N r ++ colon :: dec_of_N p ++ colon ::
+          iv ++ E P (scrypt P pw iv n r p) iv v).
+
+Theorem foreign_header_honoured : forall pw v iv n r p, len16 iv ->
+  better_aes_decrypt P pw (foreign_payload pw v iv n r p) = Ok v.
+Proof.
+  intros pw v iv n r p Hl. unfold better_aes_decrypt, foreign_payload. rewrite H_b64.
+  assert (Hs : forallb (fun b => negb (byte_eqb b colon)) [byte_of_N 115] = true) by (vm_compute; reflexivity).
+  rewrite (split_field 3 _ _ Hs), (split_field 2 _ _ (dec_no_colon n)), (split_field 1 _ _ (dec_no_colon r)),
+          (split_field 0 _ _ (dec_no_colon p)).
+  cbn [split_colon]. rewrite !py_int_dec.
+  rewrite (firstn_app_exact' 16 iv) by (symmetry; exact Hl).
+  rewrite (skipn_app_exact' 16 iv) by (symmetry; exact Hl).
+  rewrite H_DE. reflexivity.
+Qed.
+
+Theorem foreign_payload_merges : forall pw js iv n r p, len16 iv ->
+  merge_payload P (Some pw) (foreign_payload pw (zc P js) iv n r p) = Ok js.
+Proof.
+  intros. unfold merge_payload, unpack. rewrite foreign_header_honoured by assumption. rewrite H_z. reflexivity.
+Qed.
+
 Theorem pack_unpack : forall w pw iv, len16 iv -> is_locked w = false ->
   exists packed, pack P pw iv w = Ok packed /\ unpack P pw packed = Ok (to_json P w).
 Proof.
   intros w pw iv Hl Hlk. unfold pack. rewrite Hlk. eexists. split; [reflexivity|].
   unfold unpack. rewrite (better_roundtrip pw _ iv Hl), H_z. reflexivity.
+Qed.
+
+(* what sync_apply does with its own payload: for EVERY password string, the zero-length one included *)
+Theorem merge_payload_roundtrip : forall w pw iv, len16 iv -> is_locked w = false ->
+  exists packed, pack P pw iv w = Ok packed /\ merge_payload P (Some pw) packed = Ok (to_json P w)
+                 /\ merge_payload P None (to_json P w) = Ok (to_json P w).
+Proof.
+  intros w pw iv Hl Hlk. destruct (pack_unpack w pw iv Hl Hlk) as (packed & Hp & Hu).
+  exists packed. repeat split; assumption || reflexivity.
 Qed.
 
 Theorem pack_refuses_locked : forall w pw iv, is_locked w = true -> pack P pw iv w = Err EAssertion.
@@ -879,6 +943,61 @@ Proof.
     destruct (account_decrypt P pw a). exact Hc.
   - exact Hc.
   - destruct (nth_error (w_accounts (m_w st)) i); exact Hc.
+  - destruct (reload P (m_img st)) as [w0|]; [|exact Hc].
+    destruct (w_accounts w0); [exact Hc|].
+    destruct (is_locked w0 && pref_is_none w0); [apply do_save_coherent|exact Hc].
+Qed.
+
+(* start-up of a wallet whose accounts are stored encrypted: afterwards the encrypt-on-disk preference is on unless the
+   file itself carries a non-null value for it (the user's explicit choice), whatever the file's age *)
+Lemma pref_on_after_set w ts : pref_on (pref_set EOD (JB true) ts w) = true.
+Proof.
+  unfold pref_on, pref_set. cbn [w_prefs].
+  assert (H : forall l v, jget EOD (jset EOD v l) = Some v).
+  { induction l as [|[k x] l IH]; intros v; cbn [jset jget].
+    - rewrite bytes_eqb_refl. reflexivity.
+    - destruct (bytes_eqb EOD k) eqn:Hk; cbn [jget]; [rewrite bytes_eqb_refl; reflexivity|rewrite Hk; apply IH]. }
+  rewrite H. vm_compute. reflexivity.
+Qed.
+
+Lemma save_dict_keeps_pref_on ts rnd w : is_locked w = true -> pref_on w = true ->
+  pref_on (snd (save_dict P ts rnd w)) = true.
+Proof.
+  intros Hl Hp. unfold save_dict. rewrite Hp.
+  destruct (w_pw w) as [pw|] eqn:Hpw; [|rewrite Hl]; unfold wallet_to_dict;
+    destruct (accounts_to_dict P _ rnd (w_accounts w)) as [[ds accs] r]; cbn [snd]; exact Hp.
+Qed.
+
+Theorem start_enables_encryption : forall ts rnd pid st st' w0,
+  reload P (m_img st) = Some w0 -> is_locked w0 = true -> pref_is_none w0 = true ->
+  step P path umask (MStart ts rnd pid) st = (OTrue, st') ->
+  pref_on (m_w st') = true.
+Proof.
+  intros ts rnd pid st st' w0 Hr Hl Hn Hs. cbn [step] in Hs. rewrite Hr in Hs.
+  destruct (w_accounts w0) eqn:Ha; [discriminate Hs|].
+  rewrite Hl, Hn in Hs. cbn [andb] in Hs. injection Hs as <-.
+  unfold do_save. cbn [m_w].
+  pose proof (save_dict_keeps_pref_on ts rnd (pref_set EOD (JB true) ts w0)) as H.
+  destruct (save_dict P ts rnd (pref_set EOD (JB true) ts w0)) as [img w']. cbn [m_w snd] in *.
+  apply H; [|apply pref_on_after_set].
+  unfold is_locked, pref_set in *. cbn [w_accounts]. exact Hl.
+Qed.
+
+(* ... hence: start-up, unlock with a non-blank password, any save -- the dict written is the sealed image *)
+Theorem start_unlock_save_sealed : forall ts rnd pid st st' w0 (pw : bytes) ts' rnd',
+  reload P (m_img st) = Some w0 -> is_locked w0 = true -> pref_is_none w0 = true ->
+  step P path umask (MStart ts rnd pid) st = (OTrue, st') ->
+  fst (unlock P pw (m_w st')) = UTrue -> pw <> [] ->
+  let w2 := snd (unlock P pw (m_w st')) in
+  fst (save_dict P ts' rnd' w2) = public_image P (w_name w2) (w_prefs w2) rnd' (map (seal P pw) (w_accounts w2)).
+Proof.
+  intros ts rnd pid st st' w0 pw ts' rnd' Hr Hl Hn Hs Hu Hne w2.
+  pose proof (start_enables_encryption ts rnd pid st st' w0 Hr Hl Hn Hs) as Hon.
+  apply no_plaintext_on_disk; [| |exact Hne].
+  - subst w2. unfold unlock. destruct (unlock_accounts P pw (w_accounts (m_w st'))) as [o accs]. cbn [snd].
+    unfold pref_on in *. cbn [w_prefs]. exact Hon.
+  - subst w2. unfold unlock in *. destruct (unlock_accounts P pw (w_accounts (m_w st'))) as [o accs].
+    cbn [fst snd] in *. subst o. reflexivity.
 Qed.
 
 Theorem file_always_complete : forall ops st, coherent st -> coherent (run P path umask ops st).
@@ -1131,4 +1250,192 @@ Proof.
   - intros _ H. vm_compute in H. discriminate H.
   - intros _ H. vm_compute in H. discriminate H.
   - intros _ _. exists ex_watch, []. split; [exact H3|]. split; [constructor|]. vm_compute. reflexivity.
+Qed.
+
+(* ------------------------------------------------------------------------------------------ *)
+(* two processes saving the same wallet file, arbitrarily interleaved, each may die anywhere    *)
+(* ------------------------------------------------------------------------------------------ *)
+Lemma dec_of_N_inj a b : dec_of_N a = dec_of_N b -> a = b.
+Proof. intros H. pose proof (N_of_dec_of_N a) as Ha. rewrite H, N_of_dec_of_N in Ha. congruence. Qed.
+
+Lemma temp_path_inj path p q : temp_path path p = temp_path path q -> p = q.
+Proof. unfold temp_path. intros H. apply app_inv_head in H. apply app_inv_head in H. apply dec_of_N_inj. exact H. Qed.
+
+Section TwoWriters.
+Variable umask : N.
+Variable path : bytes.
+Variables pid1 pid2 : N.
+Hypothesis Hpid : pid1 <> pid2.
+Variables d1 d2 : bytes.
+Variable old : option bytes.
+Let tmp1 := temp_path path pid1.
+Let tmp2 := temp_path path pid2.
+
+(* the operations of one save, for either outcome of its os.path.exists and any mode it may have read *)
+Definition wops (tmp d : bytes) (st : bool) (m : N) : list fsop :=
+  [FOpenW tmp; FWrite tmp d; FFlush tmp; FFsync tmp; FClose tmp; FExists path] ++
+  (if st then [FStat path] else []) ++ [FRename tmp path; FChmod path m].
+
+(* an operation a writer whose temp file is tmp may perform *)
+Definition own (tmp : bytes) (op : fsop) : Prop :=
+  match op with
+  | FOpenW p | FWrite p _ | FFlush p | FFsync p | FClose p => p = tmp
+  | FExists _ | FStat _ => True
+  | FRename a b => a = tmp /\ b = path
+  | FChmod p _ => p = path
+  | FRemove _ => False
+  end.
+
+Definition is_rename (op : fsop) : bool := match op with FRename _ _ => true | _ => false end.
+
+(* running the remaining operations of a writer alone, its temp file holds d whenever it is renamed *)
+Fixpoint wh (tmp d : bytes) (l : list fsop) (t : fs) : Prop :=
+  match l with
+  | [] => True
+  | op :: r => (if is_rename op then fdata (t tmp) = Some d else True) /\ wh tmp d r (apply_op umask op t)
+  end.
+
+Inductive inter : list fsop -> list fsop -> fs -> fs -> Prop :=
+| i_stop : forall a b t, inter a b t t
+| i_left : forall op a b t t', inter a b (apply_op umask op t) t' -> inter (op :: a) b t t'
+| i_right : forall op a b t t', inter a b (apply_op umask op t) t' -> inter a (op :: b) t t'
+| i_left_partial : forall p x y a b t t', inter [] b (apply_op umask (FWrite p x) t) t' -> inter (FWrite p (x ++ y) :: a) b t t'
+| i_right_partial : forall p x y a b t t', inter a [] (apply_op umask (FWrite p x) t) t' -> inter a (FWrite p (x ++ y) :: b) t t'
+| i_left_dies : forall a b t t', inter [] b t t' -> inter a b t t'
+| i_right_dies : forall a b t t', inter a [] t t' -> inter a b t t'.
+
+Definition okpath (t : fs) : Prop := fdata (t path) = old \/ fdata (t path) = Some d1 \/ fdata (t path) = Some d2.
+
+Section Gen.
+Variable tmp tmp' : bytes.     (* generic facts, instantiated twice below *)
+Hypothesis Hne : bytes_eqb tmp tmp' = false.
+Hypothesis Hne' : bytes_eqb tmp' tmp = false.
+Hypothesis Hp : bytes_eqb path tmp = false.
+Hypothesis Hp' : bytes_eqb tmp path = false.
+Hypothesis Hq : bytes_eqb path tmp' = false.
+Hypothesis Hq' : bytes_eqb tmp' path = false.
+
+Lemma fs_set_other' p q f (t : fs) : bytes_eqb q p = false -> fs_set p f t q = t q.
+Proof. unfold fs_set. intros ->. reflexivity. Qed.
+Lemma fs_set_same' p f (t : fs) : fs_set p f t p = f.
+Proof. unfold fs_set. rewrite bytes_eqb_refl. reflexivity. Qed.
+
+(* an operation of the writer of tmp' leaves tmp alone *)
+Lemma other_keeps op t : own tmp' op -> apply_op umask op t tmp = t tmp.
+Proof.
+  destruct op; cbn [own apply_op]; intros H; subst; try reflexivity; try contradiction.
+  - apply fs_set_other'. exact Hne.
+  - destruct (t tmp'); [apply fs_set_other'; exact Hne|reflexivity].
+  - destruct H as [-> ->]. destruct (t tmp'); [|reflexivity].
+    rewrite fs_set_other' by exact Hne. apply fs_set_other'. exact Hp'.
+  - destruct (t path); [apply fs_set_other'; exact Hp'|reflexivity].
+Qed.
+
+(* an own operation acts on tmp the same way whatever the rest of the file system is *)
+Lemma own_local op t t' : own tmp op -> t tmp = t' tmp -> apply_op umask op t tmp = apply_op umask op t' tmp.
+Proof.
+  destruct op; cbn [own apply_op]; intros H E; subst; try exact E; try contradiction.
+  - rewrite !fs_set_same', E. reflexivity.
+  - rewrite <- E. destruct (t tmp) eqn:Et; [rewrite !fs_set_same'; reflexivity|congruence].
+  - destruct H as [-> ->]. rewrite <- E. destruct (t tmp) eqn:Et; [rewrite !fs_set_same'; reflexivity|congruence].
+  - destruct (t path), (t' path); rewrite ?fs_set_other' by exact Hp'; exact E.
+Qed.
+
+Lemma wh_local d l : forall t t', Forall (own tmp) l -> t tmp = t' tmp -> wh tmp d l t -> wh tmp d l t'.
+Proof.
+  induction l as [|op l IH]; intros t t' Ho E H; [exact I|].
+  inversion Ho as [|? ? Hop Hl]; subst. cbn [wh] in *. destruct H as [Hr Hw]. split.
+  - rewrite <- E. exact Hr.
+  - eapply IH; [exact Hl| |exact Hw]. apply own_local; assumption.
+Qed.
+
+Lemma wh_other d l op t : Forall (own tmp) l -> own tmp' op -> wh tmp d l t -> wh tmp d l (apply_op umask op t).
+Proof. intros Ho Hop H. eapply wh_local; [exact Ho| |exact H]. symmetry. apply other_keeps. exact Hop. Qed.
+
+(* an own operation keeps the wallet file at old / d1 / d2, given that d is one of d1 d2 *)
+Lemma own_okpath d op t : (d = d1 \/ d = d2) -> own tmp op ->
+  (if is_rename op then fdata (t tmp) = Some d else True) -> okpath t -> okpath (apply_op umask op t).
+Proof.
+  intros Hd Ho Hr Hok. unfold okpath in *.
+  destruct op; cbn [own apply_op is_rename] in *; subst; try exact Hok; try contradiction.
+  - rewrite fs_set_other' by exact Hp. exact Hok.
+  - destruct (t tmp); [rewrite fs_set_other' by exact Hp|]; exact Hok.
+  - destruct Ho as [-> ->]. destruct (t tmp) as [f|]; [|discriminate Hr].
+    rewrite fs_set_other' by exact Hp. rewrite fs_set_same'. cbn in Hr |- *.
+    destruct Hd as [<-|<-]; [right; left|right; right]; exact Hr.
+  - destruct (t path) as [f|] eqn:Ef; [|rewrite Ef; exact Hok]. rewrite fs_set_same'. cbn in *. exact Hok.
+Qed.
+
+End Gen.
+
+Lemma e12 : bytes_eqb tmp1 tmp2 = false.
+Proof. apply bytes_eqb_neq. intros H. apply Hpid. eapply temp_path_inj. exact H. Qed.
+Lemma e21 : bytes_eqb tmp2 tmp1 = false.
+Proof. apply bytes_eqb_neq. intros H. apply Hpid. symmetry. eapply temp_path_inj. exact H. Qed.
+
+Definition Inv (a b : list fsop) (t : fs) : Prop :=
+  Forall (own tmp1) a /\ Forall (own tmp2) b /\ wh tmp1 d1 a t /\ wh tmp2 d2 b t /\ okpath t.
+
+Lemma inter_inv a b t t' : inter a b t t' -> Inv a b t -> okpath t'.
+Proof.
+  induction 1 as [a b t|op a b t t' _ IH|op a b t t' _ IH|p x y a b t t' _ IH|p x y a b t t' _ IH|a b t t' _ IH|a b t t' _ IH];
+    intros (Ha & Hb & Wa & Wb & Ok).
+  - exact Ok.
+  - inversion Ha as [|? ? Hop Hta]; subst. cbn [wh] in Wa. destruct Wa as [Wr Wt]. apply IH. repeat split.
+    + exact Hta.
+    + exact Hb.
+    + exact Wt.
+    + apply (wh_other tmp2 tmp1 e21 (eqb_path_temp path pid2) d2 b op t Hb Hop Wb).
+    + apply (own_okpath tmp1 (eqb_temp_path path pid1) d1 op t (or_introl eq_refl) Hop Wr Ok).
+  - inversion Hb as [|? ? Hop Htb]; subst. cbn [wh] in Wb. destruct Wb as [Wr Wt]. apply IH. repeat split.
+    + exact Ha.
+    + exact Htb.
+    + apply (wh_other tmp1 tmp2 e12 (eqb_path_temp path pid1) d1 a op t Ha Hop Wa).
+    + exact Wt.
+    + apply (own_okpath tmp2 (eqb_temp_path path pid2) d2 op t (or_intror eq_refl) Hop Wr Ok).
+  - inversion Ha as [|? ? Hop Hta]; subst. cbn [own] in Hop. subst p.
+    assert (Hop' : own tmp1 (FWrite tmp1 x)) by reflexivity.
+    apply IH. repeat split.
+    + constructor.
+    + exact Hb.
+    + apply (wh_other tmp2 tmp1 e21 (eqb_path_temp path pid2) d2 b _ t Hb Hop' Wb).
+    + apply (own_okpath tmp1 (eqb_temp_path path pid1) d1 _ t (or_introl eq_refl) Hop' I Ok).
+  - inversion Hb as [|? ? Hop Htb]; subst. cbn [own] in Hop. subst p.
+    assert (Hop' : own tmp2 (FWrite tmp2 x)) by reflexivity.
+    apply IH. repeat split.
+    + exact Ha.
+    + constructor.
+    + apply (wh_other tmp1 tmp2 e12 (eqb_path_temp path pid1) d1 a _ t Ha Hop' Wa).
+    + apply (own_okpath tmp2 (eqb_temp_path path pid2) d2 _ t (or_intror eq_refl) Hop' I Ok).
+  - apply IH. repeat split; try assumption. constructor.
+  - apply IH. repeat split; try assumption. constructor.
+Qed.
+End TwoWriters.
+
+Lemma wops_own path tmp d st m : Forall (own path tmp) (wops path tmp d st m).
+Proof. unfold wops. destruct st; repeat constructor. Qed.
+
+Lemma wops_wh umask path tmp d st m t : wh umask tmp d (wops path tmp d st m) t.
+Proof.
+  unfold wops. destruct st; cbn [app wh is_rename]; repeat split;
+    cbn [apply_op]; rewrite fs_set_same'; cbn [f_data f_mode app];
+    rewrite fs_set_same'; reflexivity.
+Qed.
+
+(* Two processes (different pids, hence different temp files) save the same wallet file; their operations interleave in
+   any order and either process may die before any of its operations or inside its write, or run to completion.  At
+   every moment the wallet file holds its previous content, or the complete content of one of the two saves. *)
+Theorem two_writers_atomic : forall umask path pid1 pid2 d1 d2 s1 m1 s2 m2 t t',
+  pid1 <> pid2 ->
+  inter umask (wops path (temp_path path pid1) d1 s1 m1) (wops path (temp_path path pid2) d2 s2 m2) t t' ->
+  fdata (t' path) = fdata (t path) \/ fdata (t' path) = Some d1 \/ fdata (t' path) = Some d2.
+Proof.
+  intros umask path pid1 pid2 d1 d2 s1 m1 s2 m2 t t' Hpid H.
+  apply (inter_inv umask path pid1 pid2 Hpid d1 d2 (fdata (t path)) _ _ t t' H).
+  repeat split.
+  - apply wops_own.
+  - apply wops_own.
+  - apply wops_wh.
+  - apply wops_wh.
+  - left. reflexivity.
 Qed.
